@@ -322,7 +322,7 @@ func TestC17(t *testing.T) {
 		}
 	}
 	tags := fixedTags()
-	c.rapidStage("rapid", pick(20000, 1000000), func(rt *rapid.T) {
+	c.rapidStage("rapid", pick(80000, 1000000), func(rt *rapid.T) {
 		lv := gen.Level().Draw(rt, "level")
 		var v spec.Vec
 		biased := rapid.IntRange(0, 3).Draw(rt, "biased") != 0
